@@ -874,7 +874,7 @@ def check_primitives(prog):
             if not okb:
                 probs.append(Problem("L1", "decodeLength", "stop-test", "decoding stops on `%s`; it must stop exactly when the continuation bit is clear" % U(t), x))
     # additive accumulation with a multiplier that starts at 1, value at 0
-    acc = [x for x in ast.walk(r.node) if isinstance(x, ast.AugAssign) and (isinstance(x.op, ast.Add) or (enum_form and isinstance(x.op, ast.BitOr)))
+    acc = [x for x in ast.walk(r.node) if isinstance(x, ast.AugAssign) and (isinstance(x.op, ast.Add) or ((enum_form or shift_form) and isinstance(x.op, ast.BitOr)))
            and any(isinstance(y, ast.BinOp) and isinstance(y.op, ast.BitAnd) for y in ast.walk(x.value))]
     plain = [x for x in ast.walk(r.node) if isinstance(x, ast.For)]
     # the masked digit is weighted by multiplication (or a left shift), nothing else
